@@ -12,6 +12,8 @@ trap 'git -C /repo worktree remove --force "$W" 2>/dev/null; rm -rf "$W" "$V"; g
 git -C "$W" apply "$PATCH"
 OUT=$(${BIN:-/verif/bin/verifcheck} ALL quick --repo "$W" --verif "$V" 2>&1 || true)
 BAD=$(echo "$OUT" | grep -a "^ALL-RESULT" | grep -v "exit=0" || true)
+NRES=$(echo "$OUT" | grep -a -c "^ALL-RESULT" || true)
+if [ "$NRES" -lt 20 ]; then echo "== $L: CHECKER DID NOT RUN ($NRES results): $(echo "$OUT" | grep -a "BROKEN" | head -2 | cut -c1-200)"; exit 0; fi
 if [ -z "$BAD" ]; then echo "== $L: all 20 checks silent"; else
   echo "== $L: $(echo $BAD | tr '\n' ' ')"
   echo "$OUT" | grep -a "VIOLATION\|CHECK-BROKEN" -A4 | grep -a "VIOLATION\|BROKEN\|^  at\|^  [a-zA-Z0-9\[(]" | grep -v "^  rule" | cut -c1-260 | head -${LINES_MAX:-12}
